@@ -193,6 +193,67 @@ def run_async(case):
     return dict(items=items, counters=dict(counters), samples=samples)
 
 
+def run_wall(case):
+    """wall clock: a step that moves its own ts forward is recorded with THAT start time (ts_start + delay == ts_end)"""
+    import jax
+
+    from rexmon import drive_async as D
+    from rexmon import specs as S
+    from rexmon import witness as W
+
+    rnd = random.Random(case["spec_seed"])
+    spec = S.rand_live(case["spec_seed"], n_min=2, n_max=3, overrun=False)
+    for n in spec["nodes"]:
+        n["rate"] = max(n["rate"], 13)
+    dg = S.digest(spec)
+    g, nodes, sup, gs0 = D.build_graph(spec, clock="wall", rtf=0, max_records=200, init_seed=case["spec_seed"])
+    shifted = rnd.choice([n for n in nodes if n != sup.name])
+    shift = 0.003
+    # the AOT-compiled step of that node must contain the shift: rebuild the graph with the attribute set before warmup
+    nodes2, sup2 = S.build(spec, trace="io")
+    nodes2[shifted].ts_shift = shift
+    import rex.constants as const
+    from rex.asynchronous import AsyncGraph
+
+    g = AsyncGraph(nodes2, sup2, clock=const.Clock.WALL_CLOCK, real_time_factor=const.RealTimeFactor.REAL_TIME)
+    g.set_record_settings(params=True, rng=True, inputs=True, state=True, output=True, max_records=200)
+    gs0 = g.init(jax.random.PRNGKey(case["spec_seed"]))
+    g.warmup(gs0)
+    V, counters = [], Counter()
+    try:
+        def _ep():
+            import time
+
+            W.trace_clear()
+            gs = D.with_nonce(gs0, nodes2, 3)
+            t0 = time.time()
+            while time.time() - t0 < 0.5:
+                gs = g.run(gs)
+            g.stop()
+            jax.effects_barrier()
+            return D.npz(g.get_record()), W.decode_trace(W.trace_snapshot(), S.input_layout(nodes2))
+        rec, trace = D.call_with_deadline(_ep, 60)
+    except (D.Stall, TypeError) as e:
+        return dict(items=[dict(status="rejected", key=dg, nontrivial=False, note=str(e)[:100])], counters={})
+    tb = {(d["idx"], d["seq"]): d for d in trace}
+    for n, nr in rec.nodes.items():
+        st = nr.steps
+        K = len(st.seq)
+        bad = onp.abs(onp.asarray(st.ts_start, float) + onp.asarray(st.delay, float) - onp.asarray(st.ts_end, float)) > 1e-6
+        counters["wall_rows_checked"] += K
+        if bad.any():
+            k = int(onp.argmax(bad))
+            V.append(dict(clause="recorded_ts_start_plus_delay_not_ts_end", node=n, k=k, ts_start=float(st.ts_start[k]), delay=float(st.delay[k]), ts_end=float(st.ts_end[k]), shifted_node=shifted))
+        if n == shifted:
+            for k in range(K):
+                t = tb.get((nodes2[n].idx, k))
+                if t is not None and abs(float(st.ts_start[k]) - (t["ts"] + shift)) > 2e-4:
+                    V.append(dict(clause="recorded_ts_start_not_the_start_time_the_step_returned", node=n, k=k, recorded=float(st.ts_start[k]), seen=t["ts"], returned=t["ts"] + shift))
+                    break
+    item = dict(status="violated", key=f"{dg}/wall-ts-shift", nontrivial=True, witness=dict(mechanism=V[0]["clause"], violations=V[:3], spec=spec)) if V else dict(status="held", key=f"{dg}/wall-ts-shift", nontrivial=True)
+    return dict(items=[item], counters=dict(counters), samples=[dict(kind="wall", spec_digest=dg, shifted_node=shifted, shift=shift)])
+
+
 def run_comp(case):
     import jax
 
@@ -326,9 +387,12 @@ def run_comp(case):
             items.append(dict(status="held", key=key, nontrivial=nontriv))
     # ---- reset/step driving with user-overridden supervisor steps while recording: the recorded output of an overridden step is the output passed in
     try:
-        c1 = G.init_record(c0, params=True, rng=True, inputs=True, state=True, output=True)
+        import jax.numpy as jnp
+
+        c1 = G.init_record(c0.replace_aux({"user_counter": jnp.int32(7), "user_note": jnp.float32(0.25)}), params=True, rng=True, inputs=True, state=True, output=True)
         W.trace_clear()
         gs, ss = jax.jit(G.reset)(c1)
+        aux_keys_after_reset = sorted(gs.aux.keys())
         step_j = jax.jit(G.step)
         sent = {}
         kmax = min(N - 1, 6)
@@ -349,6 +413,8 @@ def run_comp(case):
         tr = {(d["idx"], d["seq"]): d for d in W.decode_trace(W.trace_snapshot(), S.input_layout(nodes))}
         rec = C.npz(gs.aux["record"])
         V = []
+        if sorted(gs.aux.keys()) != ["record", "user_counter", "user_note"] or aux_keys_after_reset != ["record", "user_counter", "user_note"] or int(gs.aux["user_counter"]) != 7:
+            V.append(dict(clause="recording_dropped_other_aux_entries", aux_keys=sorted(gs.aux.keys()), after_reset=aux_keys_after_reset))
         so = rec.nodes[sup.name].steps.output
         for k_, h_ in sent.items():
             counters["overridden_outputs_checked"] += 1
@@ -375,9 +441,12 @@ def plan(tier, seed):
     modes = ["mcs", "gen", "top"]
     cases = [dict(name=f"async-{i}", kind="async", spec_seed=seed * 100189 + i, timeout=420) for i in range(na)]
     cases += [dict(name=f"gen-{i}", kind="comp-gen", spec_seed=seed * 100189 + 2000 + i, mode=modes[i % 3], timeout=900) for i in range(ng)]
+    cases += [dict(name=f"wall-{i}", kind="wall", spec_seed=seed * 100189 + 6000 + i, timeout=300) for i in range(3 if tier == "quick" else 30)]
     cases += [dict(name=f"rec-{i}", kind="comp-rec", spec_seed=seed * 100189 + 4000 + i, mode=modes[i % 3], timeout=900) for i in range(nr)]
     return cases
 
 
 def run_case(case):
+    if case["kind"] == "wall":
+        return run_wall(case)
     return run_async(case) if case["kind"] == "async" else run_comp(case)
